@@ -185,7 +185,7 @@ func runGorSource(src string) (out string, problem string) {
 		mu.Lock()
 		defer mu.Unlock()
 		return sb.String(), p
-	case <-time.After(20 * time.Second):
+	case <-time.After(5 * time.Second):
 		return "", "timeout (deadlock?)"
 	}
 }
@@ -204,6 +204,9 @@ func gorWorker(c *Ctx) {
 	}
 	procs := []int{1, 2, 4, 16}
 	for i, gc := range cases {
+		if c.Stats["failures"] >= 5 {
+			break // enough failing inputs; a broken VM makes every further case wait for its timeout
+		}
 		for rep := 0; rep < 3; rep++ {
 			p := procs[(i+rep)%len(procs)]
 			runtime.GOMAXPROCS(p)
